@@ -8,7 +8,7 @@ import fcntl, glob, hashlib, json, os, random, re, shutil, subprocess, sys, time
 
 VERIF = os.path.dirname(os.path.dirname(os.path.abspath(__file__)))
 REPO = os.environ.get("VERIF_REPO", "/repo")
-BUILD = os.path.join(VERIF, ".build")
+BUILD = os.environ.get("VERIF_BUILD", os.path.join(VERIF, ".build"))
 COQ = os.path.join(VERIF, "coq")
 GUARD = "SQFVM_RUNTIME_VERIF"
 NPROC = os.cpu_count() or 4
@@ -174,8 +174,19 @@ def build_harness(name, flavour="plain", extra=""):
 # --------------------------------------------------------------------------------------
 # Coq / OCaml
 
+def coq_project():
+    """_CoqProject is generated: -Q . SqfVerif plus every .v under coq/ (nobody edits it by hand)."""
+    files = sorted(os.path.relpath(p, COQ) for p in glob.glob(os.path.join(COQ, "**", "*.v"), recursive=True))
+    txt = "-Q . SqfVerif\n" + "\n".join(files) + "\n"
+    cp = os.path.join(COQ, "_CoqProject")
+    if not os.path.exists(cp) or open(cp).read() != txt:
+        with open(cp, "w") as f:
+            f.write(txt)
+
+
 def coq_makefile():
     with Lock("coq"):
+        coq_project()
         mk = os.path.join(COQ, "Makefile.coq")
         cp = os.path.join(COQ, "_CoqProject")
         if not os.path.exists(mk) or os.path.getmtime(mk) < os.path.getmtime(cp):
